@@ -74,8 +74,13 @@ def judge_case(c, r):
     if mode == "rt":
         enc = r["enc"]
         req = c["encreq"]
+        byte_form = not (enc[:2] == MARK16 or enc[:3] == MARK8 or len(enc) != req["len"])
         if req["kind"] == "onebyte":
-            if enc[:2] == MARK16 or enc[:3] == MARK8 or len(enc) != req["len"]:
+            if not byte_form:
+                out.append(("C16:enc.ascii-stays", dict(det, required=req)))
+        elif req["kind"] == "either":
+            # an ASCII string with a control PDFDocEncoding does not have: the byte form or FE FF + UTF-16BE
+            if not byte_form and enc != req["bytes"]:
                 out.append(("C16:enc.ascii-stays", dict(det, required=req)))
         elif enc != req["bytes"]:
             out.append(("C16:enc.utf16", dict(det, required=req)))
@@ -119,6 +124,7 @@ def run_mc(chk, cfg, tier, w, emit=True):
     need = {
         "astral round trip": any(c["mode"] == "rt" and "astral" in c["cls"] for c in cases),
         "pure ASCII round trip": any(c["mode"] == "rt" and c["s"] and c["encreq"]["kind"] == "onebyte" for c in cases),
+        "ASCII with a control outside PDFDocEncoding": any(c["mode"] == "rt" and c["encreq"]["kind"] == "either" for c in cases),
         "utf8 with mark": any(c["mode"] == "u8" and "bmp" in c["cls"] for c in cases),
         "odd-length UTF-16": any(c["mode"] == "raw" and c["br"] == "u16" and len(c["bytes"]) % 2 == 1 for c in cases),
         "lone mark": any(c["mode"] == "raw" and c["bytes"] == MARK16 for c in cases) and any(c["mode"] == "raw" and c["bytes"] == MARK8 for c in cases),
@@ -163,7 +169,8 @@ def run_mc(chk, cfg, tier, w, emit=True):
 
 # ------------------------------------------------------------------ TextExtract: the extractor as a state machine
 LAYOUT = (32, 10)
-XT_ACTIONS = ["TfKnown", "TfUnknown", "TfNotName", "TfNoOperand", "Show", "ShowNothing", "EndText", "Other", "End"]
+XT_ACTIONS = ["TfKnown", "TfUnknown", "TfNotName", "TfNoOperand", "Show", "ShowNothing", "QuoteOp", "SaveFont", "RestoreFont",
+              "EndText", "Other", "End"]
 
 
 def strip_layout(t):
@@ -179,12 +186,42 @@ def drift(chk, tag, n=1):
     d[tag] = d.get(tag, 0) + n
 
 
-def xt_name(o, base_good, shown):
-    """the clause a lost text is reported under (same naming as Trace_TextExtract)"""
+def xt_layers(c):
+    """the impl-shaped layers TLC evaluated for the case: as run (rep) and every other combination of repairs whose
+    result differs: [(set of repairs, chunks, et)]"""
+    return [(set(c["rep"]), c["chunks"], c["et"])] + [(set(a["rep"]), a["chunks"], a["et"]) for a in c["alts"]]
+
+
+def xt_same(o, chunks, et):
+    return norm_chunks(o["chunks"]) == norm_chunks(chunks) and (o["et"]["ok"] == "yes") == et["ok"] and o["et"]["t"] == et["t"]
+
+
+def xt_names(c, o, base_good):
+    """the signatures a lost text is reported under (same naming as Trace_TextExtract)"""
     if o["call"] in ("panic", "build-panic"):
-        return "extract.panic"
+        return ["extract.panic"]
     if o["v"] != "base" and base_good:
-        return "extract.d.split-no-eol" if o["v"] == "split-raw" and o.get("merge") == "yes" else "extract.d." + o["v"]
+        return ["extract.d.split-no-eol" if o["v"] == "split-raw" and o.get("merge") == "yes" else "extract.d." + o["v"]]
+    # lopdf returned exactly what a layer that lacks a repair the page needs returns: the finding(s) of that name.
+    # (layers not listed in alts return what the layer as run returns)
+    needs = set(c["needs"])
+    listed = xt_layers(c)
+    same_et = lambda et: (o["et"]["ok"] == "yes") == et["ok"] and o["et"]["t"] == et["t"]
+    lacking = [rep for rep, _, et in listed if same_et(et) and not needs <= rep]
+    if same_et(c["et"]):
+        # every unlisted combination equals the layer as run; the largest of them that still lacks a needed repair
+        listed_reps = [rep for rep, _, _ in listed]
+        for k in (3, 2, 1, 0):
+            for rep in (set(x) for x in __import__("itertools").combinations(["quote-ops", "gstate-font", "et-flag"], k)):
+                if rep not in listed_reps and not needs <= rep:
+                    lacking.append(rep)
+    if lacking:
+        most = max(lacking, key=len)
+        return sorted("extract." + x for x in needs - most)
+    return [xt_name_clause(o, c["shown"])]
+
+
+def xt_name_clause(o, shown):
     # the page as built lost text: which clause explains it (same order as Trace_TextExtract)
     oks = [c["t"] for c in o["chunks"] if c["ok"] == "yes"]
     if strip_layout([x for c in oks for x in c]) != strip_layout(shown):
@@ -241,6 +278,8 @@ def run_extract(chk, tier, w):
             raise vlib.ToolError("MC_TextExtract produced no cases")
         need = {
             "in-domain page with text": any(c["indomain"] and c["shown"] for c in cases),
+            "in-domain pages that need each repair": all(any(c["indomain"] and c["shown"] and x in c["needs"] for c in cases) for x in ("quote-ops", "gstate-font")),
+            "a layer that differs only by the ET separator rule": any(any(a["rep"] == ["et-flag"] for a in c["alts"]) for c in cases),
             "two chunks": any(sum(1 for x in c["chunks"] if x["ok"]) >= 2 for c in cases),
             "error chunk before pending text": any(len(c["chunks"]) >= 2 and not c["chunks"][0]["ok"] and c["chunks"][1]["ok"] for c in cases) or cfg != cfgs[0],
             "failed call": any(c["chunks"] == [{"ok": False, "t": []}] for c in cases) or cfg != cfgs[0],
@@ -269,19 +308,20 @@ def run_extract(chk, tier, w):
             base_good = base["et"]["ok"] == "yes" and strip_layout(base["et"]["t"]) == strip_layout(c["shown"])
             for o in rec["obs"]:
                 chk.traces += 1
-                exact = (norm_chunks(o["chunks"]) == norm_chunks(c["chunks"]) and (o["et"]["ok"] == "yes") == c["et"]["ok"]
-                         and o["et"]["t"] == c["et"]["t"])
+                # exact: lopdf returned what the layer as the code is, or with some of the proposed repairs, returns
+                exact = any(xt_same(o, ch, et) for _, ch, et in xt_layers(c))
                 good = o["et"]["ok"] == "yes" and strip_layout(o["et"]["t"]) == strip_layout(c["shown"])
                 if c["indomain"] and not good and o["call"] != "save-load-failed":
                     # C16: inside the domain the shown text (computed by the declarative layer in TLC) must come back
-                    chk.violation("C16:" + xt_name(o, base_good, c["shown"]), {"font_map": c["fm"], "ops": c["ops"], "cut": rec["cut"], "variant": o["v"],
-                                                                   "shown": c["shown"], "lopdf": {k: o[k] for k in ("call", "chunks", "et", "msg")},
-                                                                   "model": {"chunks": c["chunks"], "et": c["et"]}})
+                    for sg in xt_names(c, o, base_good):
+                        chk.violation("C16:" + sg, {"font_map": c["fm"], "ops": c["ops"], "cut": rec["cut"], "variant": o["v"],
+                                                    "shown": c["shown"], "needs": c["needs"], "lopdf": {k: o[k] for k in ("call", "chunks", "et", "msg")},
+                                                    "model_as_the_code_is": {"chunks": c["chunks"], "et": c["et"]}})
                 elif not exact:
                     mism += 1
                     drift(chk, "replay.exact." + o["v"])
             # every in-domain case and a sample of the others are also judged by Trace_TextExtract
-            if c["indomain"] or i % (10 if cfg == cfgs[0] else 40) == 0:
+            if (c["indomain"] and (c["needs"] or i % 3 == 0)) or i % (10 if cfg == cfgs[0] else 40) == 0:
                 if cfg == cfgs[0] or i % 8 == 0:
                     sampled.append(c)
                     sampled_recs.append(rec)
@@ -317,6 +357,9 @@ def run_extract(chk, tier, w):
         "failing, broken and ToUnicode fonts": all(any(any(f["real"].startswith(s) for f in rec["fonts"]) for rec in recs) for s in ("GBK", "no /Type", "Identity-H")),
         "a multi-character cell": any(any(len(c) > 1 for f in rec["fonts"] for c in f["cells"]) for rec in recs),
         "every predefined encoding": all(any(any(f["real"].startswith(e) for f in rec["fonts"]) for rec in recs) for e in ENCS),
+        "text shown by ' and by \" under a font": all(any(any(o["op"] == q and any(a["k"] == "str" and a["v"] for a in o["args"]) for o in rec["ops"]) for rec in recs) for q in ("'", '"')),
+        "q and Q around a font change": sum(1 for rec in recs if any(o["op"] == "Q" for o in rec["ops"]) and any(o["op"] == "q" for o in rec["ops"])) >= 20,
+        "a table with a line-feed cell (PDFDocEncoding) showing it": any(any(f["real"].startswith("PDFDocEncoding") and [10] in f["cells"] for f in rec["fonts"]) for rec in recs),
         "split, re-encoded and reloaded observations": all(sum(1 for rec in recs if any(o["v"] == v for o in rec["obs"])) >= len(recs) // 3
                                                             for v in ("split", "split-raw", "reenc", "reload")),
     }
@@ -327,7 +370,7 @@ def run_extract(chk, tier, w):
     chk.add_tlc(r)
     cats = xt_take(chk, allrecs, verdicts)
     chk.extra["extract_record_categories"] = cats
-    for t_, least in (("domain-text", 100), ("domain-empty", 20), ("outside-clean", 50), ("outside-errors", 20)):
+    for t_, least in (("domain-text", 100), ("domain-text-needs", 30), ("domain-empty", 20), ("outside-clean", 50), ("outside-errors", 20)):
         if cats.get(t_, 0) < least:
             vacuous(chk, "vacuous TextExtract validation: only %d pages of category %s (need %d)" % (cats.get(t_, 0), t_, least))
     ex = next((rec for rec in recs if rec["src"] == "random" and len(rec["ops"]) >= 4 and len(rec["obs"][0]["chunks"]) >= 2), recs[0])
@@ -642,6 +685,9 @@ def run(tier):
         # the table named by /Encoding through every other kind of font dictionary (BaseFont, Subtype, widths, descriptor)
         "every encoding through >= 12 other font dictionaries": all(
             len({rec["fv"] for rec in recs if rec["k"] == "vtab" and rec["e"] == e}) >= 12 for e in ENCS),
+        "/Encoding given as an indirect name and as a /BaseEncoding-only dictionary": all(
+            any(rec["k"] == "vtab" and rec["form"] == f for rec in recs) and any(rec["k"] == "ext" and any(p["form"] == f and p["b"] for p in rec["parts"]) for rec in recs)
+            for f in ("indirect-name", "base-encoding-dict", "indirect-base-encoding-dict")),
         "font dictionaries named *Symbol, ZapfDingbats, TrueType, Type3, with widths / descriptor": all(
             any(rec["k"] == "vtab" and s in rec["fv"] for rec in recs)
             for s in ("/Symbol", "+Symbol", "SegoeUISymbol", "ZapfDingbats", "TrueType/", "Type3/", "+widths", "+descriptor", "no-BaseFont")),
@@ -698,7 +744,7 @@ def run(tier):
     # properties of the input, whatever the outcome)
     for t, least in (("published", 500), ("present", 300), ("absent", 100), ("utf16", 50), ("ascii", 20), ("utf8", 50),
                      ("raw-u16", 5), ("raw-tab", 5), ("raw-u8", 5), ("undef-u16", 5), ("undef-u8", 5), ("batch", 10),
-                     ("extract", 20), ("vtab", 60), ("observed", 10), ("replace", 30)):
+                     ("extract", 20), ("vtab", 85), ("observed", 15), ("replace", 30)):
         if cats.get(t, 0) < least:
             vacuous(chk, "vacuous validation: only %d records of category %s (need %d): %s" % (cats.get(t, 0), t, least, cats))
     chk.extra["record_categories"] = cats
@@ -734,7 +780,8 @@ def run(tier):
     if n_rt:
         n_rt["d"][-1] ^= 1                                                          # decoded string differs in one scalar
         negs.append(n_rt); want.append("textrt")
-    n_enc = first(lambda rec: rec["k"] == "ts" and len(rec["enc"]) >= 4 and rec["enc"][:2] == MARK16 and rec["enc"][2] != rec["enc"][3])
+    n_enc = first(lambda rec: rec["k"] == "ts" and len(rec["enc"]) >= 4 and rec["enc"][:2] == MARK16 and rec["enc"][2] != rec["enc"][3]
+                  and any(c >= 128 for c in rec["s"]))
     if n_enc:
         n_enc["enc"][2], n_enc["enc"][3] = n_enc["enc"][3], n_enc["enc"][2]         # little-endian unit
         negs.append(n_enc); want.append("enc.utf16")
